@@ -422,6 +422,8 @@ def rule_header_cover(ctx: Ctx) -> None:
 
 
 def run(ctx: Ctx) -> None:
+    from ..rules import order as _order
+    _order.rule_sequence_source(ctx, [("graphiq/circuit/circuit_dag.py", "CircuitDAG.to_json"), ("graphiq/circuit/circuit_dag.py", "CircuitDAG._slim_seq"), ("graphiq/circuit/circuit_base.py", "CircuitBase.to_openqasm")])
     from ..rules import memo as _memo
     _memo.rule_memo_sound(ctx, ['graphiq/circuit/circuit_dag.py', 'graphiq/utils/openqasm_lib.py', 'graphiq/circuit/ops.py'])
     rule_regex_groups(ctx)
@@ -437,6 +439,8 @@ def run(ctx: Ctx) -> None:
 
 
 KNOCKOUTS = [
+    Knockout("export-node-order", "graphiq/circuit/circuit_dag.py", sub_once("        for op in self.sequence():\n            if isinstance(op, ops.InputOutputOperationBase):", "        for op in [self.dag.nodes[k]['op'] for k in self.dag.nodes]:\n            if isinstance(op, ops.InputOutputOperationBase):"), "order.topological", "node-creation order"),
+
     Knockout("regex-repeated-group", DAG,
              sub_once('                q_reg = int(re.split(r"\\[", q_str[1:])[0])', '                q_reg = int(re.search(r"(e|p)(\\d)+\\[0\\]", command).group(2))'),
              "regex.repeated-group", "group [2]"),
